@@ -87,9 +87,11 @@ class Report:
         known-findings file."""
         self.obligations += 1
         for k in self._known:
-            if k.get("key") == key:
-                if key not in [x["key"] for x in self.known_hit]:
-                    self.known_hit.append({"key": key, "what": what})
+            import re as _re
+            if k.get("key") == key or (k.get("key_regex") and _re.fullmatch(k["key_regex"], key)):
+                first = k.get("id", k.get("key", k.get("key_regex"))) not in [x["finding"] for x in self.known_hit]
+                self.known_hit.append({"finding": k.get("id", k.get("key", k.get("key_regex"))), "key": key})
+                if first:
                     print("KNOWN-FINDING: property=%s %s" % (self.prop, k.get("what", what)), flush=True)
                 return
         if len(self.violations) >= 25:
